@@ -42,6 +42,21 @@ class Leaf(Node):
       return f'<{type(self.value).__name__}: repr raises>'
 
 
+class _Gap:
+  """Marker value of a positional slot that is left UNSET (its parameter has a default) although
+  later positional slots are set: the stored keys then differ from the positions."""
+
+  def __repr__(self):
+    return '<unset>'
+
+
+GAP = _Gap()
+
+
+def is_gap(n):
+  return isinstance(n, Leaf) and n.value is GAP
+
+
 class Seq(Node):
   def __init__(self, typ, items):
     super().__init__()
@@ -274,7 +289,17 @@ def to_fiddle(n, memo=None):
   else:
     pos = [to_fiddle(c, memo) for c in n.pos]
     kw = {k: to_fiddle(v, memo) for k, v in n.kw.items()}
-    r = BTYPES[n.btype](n.fn, *pos, **kw)
+    if any(v is GAP for v in pos):
+      r = BTYPES[n.btype](n.fn, **kw)
+      nfixed = sum(p.kind in (p.POSITIONAL_ONLY, p.POSITIONAL_OR_KEYWORD)
+                   for p in inspect.signature(n.fn).parameters.values())
+      for i, v in enumerate(pos[:nfixed]):
+        if v is not GAP:
+          r[i] = v
+      if len(pos) > nfixed:
+        r[fdl.VARARGS:] = pos[nfixed:]
+    else:
+      r = BTYPES[n.btype](n.fn, *pos, **kw)
     for key, ts in n.tags.items():
       for t in sorted(ts, key=lambda t: t.__name__):
         fdl.add_tag(r, key, t)
@@ -303,6 +328,9 @@ def to_direct(n, memo=None):
     r = to_direct(n.kw['value'], memo)
   else:
     pos = [to_direct(c, memo) for c in n.pos]
+    if any(v is GAP for v in pos):
+      params = list(inspect.signature(n.fn).parameters.values())
+      pos = [params[i].default if v is GAP else v for i, v in enumerate(pos)]
     kw = {k: to_direct(v, memo) for k, v in n.kw.items()}
     if n.btype in ('Config', 'SubConfig', 'DictConfig', 'NamespaceConfig', 'PinnedConfig'):
       r = n.fn(*pos, **kw)
@@ -449,6 +477,12 @@ class DagGen:
     if use_va:
       for _ in range(rng.choice([1, 1, 2, 2, 3, 4])):
         n.pos.append(self.child(depth + 1))
+    if self.o.allow_gaps and len(n.pos) >= 2 and rng.random() < 0.4:
+      # leave one defaulted positional parameter unset in front of later positional values
+      cands = [i for i in range(min(len(n.pos) - 1, len(positional)))
+               if positional[i].default is not positional[i].empty and positional[i].name != 'uid']
+      if cands:
+        n.pos[rng.choice(cands)] = Leaf(GAP)
     for p in positional[npos:]:
       if p.kind == p.POSITIONAL_ONLY:
         continue
